@@ -608,3 +608,276 @@ func hsFlights(c *Ctx, v *VFile) error {
 	}
 	return nil
 }
+
+// ---------------------------------------------------------------------------------------------
+// hssig: the tables behind gmtls/auth.go pickSignatureAlgorithm / verifyHandshakeSignature -> Gen/HSSigTables.v
+//
+//   SignatureScheme and signature-type constants (common.go); gen_supportedSignatureAlgorithms (the package list);
+//   gen_lookupTLSHash            : rows [scheme; crypto.Hash number]      the switch of prf.go lookupTLSHash
+//   gen_signatureFromScheme      : rows [scheme; signature type]          the switch of signatureFromSignatureScheme
+//   gen_pick_fixed               : rows [key kind; sigAlg; sigType; hash] every return of the type switch in the
+//                                  "tlsVersion < VersionTLS12 || len(peerSigAlgs) == 0" branch, in order (the RSA case has
+//                                  two: before TLS 1.2, TLS 1.2); key kind 0 *rsa.PublicKey 1 *ecdsa.PublicKey 2 *sm2.PublicKey
+//   gen_pick_loop_compat         : rows [key kind; signature type]        the signature types the loop accepts per key type
+//   gen_verify_key_for_sigtype   : rows [signature type; key kind]        the type assertion of each case of verifyHandshakeSignature
+//   crypto.Hash numbers are the stdlib's: SHA1 3, SHA256 5, SHA384 6, SHA512 7, MD5SHA1 8.
+func init() {
+	register("hssig", func(c *Ctx) error {
+		p, err := LoadPkg(c, "gmtls", "common.go", "auth.go", "prf.go")
+		if err != nil {
+			return err
+		}
+		v := NewV("gmtls signature-algorithm tables (auth.go, common.go, prf.go)", p, "gmtls/common.go", "gmtls/auth.go", "gmtls/prf.go")
+		konst := func(n string) (*big.Int, error) {
+			if x, ok := p.Consts[n]; ok {
+				return x, nil
+			}
+			e, err := p.Var(n)
+			if err != nil {
+				return nil, err
+			}
+			return p.Eval(e)
+		}
+		for _, n := range []string{"PKCS1WithSHA1", "PKCS1WithSHA256", "PKCS1WithSHA384", "PKCS1WithSHA512", "PSSWithSHA256", "PSSWithSHA384",
+			"PSSWithSHA512", "ECDSAWithP256AndSHA256", "ECDSAWithP384AndSHA384", "ECDSAWithP521AndSHA512", "ECDSAWithSHA1", "SM2WITHSM3",
+			"signaturePKCS1v15", "signatureECDSA", "signatureRSAPSS", "signatureSM2", "VersionTLS12"} {
+			x, err := konst(n)
+			if err != nil {
+				return fmt.Errorf("constant %s: %v", n, err)
+			}
+			v.N("gsig_"+n, x)
+		}
+		sup, err := p.VarInts("supportedSignatureAlgorithms")
+		if err != nil {
+			return err
+		}
+		v.NList("gen_supportedSignatureAlgorithms", sup)
+
+		hashNo := map[string]int64{"SHA1": 3, "SHA256": 5, "SHA384": 6, "SHA512": 7, "MD5SHA1": 8}
+		keyKind := map[string]int64{"rsa": 0, "ecdsa": 1, "sm2": 2}
+		// value of a returned expression: an integer constant, or crypto.<Hash>
+		retVal := func(e ast.Expr) (*big.Int, error) {
+			if s, ok := e.(*ast.SelectorExpr); ok && isIdent(s.X, "crypto") {
+				if n, ok := hashNo[s.Sel.Name]; ok {
+					return big.NewInt(n), nil
+				}
+				return nil, fmt.Errorf("unknown crypto hash %s", s.Sel.Name)
+			}
+			return p.Eval(e)
+		}
+		// a switch over a scheme whose clauses return one value: rows [case constant; value]
+		switchTable := func(fn string, retIndex int) ([][]*big.Int, error) {
+			f, ok := p.Funcs[fn]
+			if !ok {
+				return nil, fmt.Errorf("function %s not found", fn)
+			}
+			var sw *ast.SwitchStmt
+			ast.Inspect(f, func(n ast.Node) bool {
+				if s, ok := n.(*ast.SwitchStmt); ok && sw == nil {
+					sw = s
+				}
+				return true
+			})
+			if sw == nil {
+				return nil, fmt.Errorf("%s: no switch", fn)
+			}
+			var rows [][]*big.Int
+			for _, cc := range sw.Body.List {
+				cl := cc.(*ast.CaseClause)
+				if cl.List == nil {
+					continue
+				}
+				if len(cl.Body) != 1 {
+					return nil, fmt.Errorf("%s: a case with %d statements", fn, len(cl.Body))
+				}
+				r, ok := cl.Body[0].(*ast.ReturnStmt)
+				if !ok || len(r.Results) <= retIndex {
+					return nil, fmt.Errorf("%s: case does not return", fn)
+				}
+				val, err := retVal(r.Results[retIndex])
+				if err != nil {
+					return nil, fmt.Errorf("%s: %v", fn, err)
+				}
+				for _, ce := range cl.List {
+					x, err := p.Eval(ce)
+					if err != nil {
+						return nil, fmt.Errorf("%s: %v", fn, err)
+					}
+					rows = append(rows, []*big.Int{x, val})
+				}
+			}
+			return rows, nil
+		}
+		rows, err := switchTable("lookupTLSHash", 0)
+		if err != nil {
+			return err
+		}
+		v.NListList("gen_lookupTLSHash", rows)
+		rows, err = switchTable("signatureFromSignatureScheme", 0)
+		if err != nil {
+			return err
+		}
+		v.NListList("gen_signatureFromScheme", rows)
+
+		// *rsa.PublicKey -> 0 ...
+		kindOf := func(e ast.Expr) (int64, bool) {
+			st, ok := e.(*ast.StarExpr)
+			if !ok {
+				return 0, false
+			}
+			s, ok := st.X.(*ast.SelectorExpr)
+			if !ok || s.Sel.Name != "PublicKey" {
+				return 0, false
+			}
+			id, ok := s.X.(*ast.Ident)
+			if !ok {
+				return 0, false
+			}
+			k, ok := keyKind[id.Name]
+			return k, ok
+		}
+		pick, ok := p.Funcs["pickSignatureAlgorithm"]
+		if !ok {
+			return fmt.Errorf("pickSignatureAlgorithm not found")
+		}
+		// the first statement: if tlsVersion < VersionTLS12 || len(peerSigAlgs) == 0 { switch pubkey.(type) {...} }
+		first, ok := pick.Body.List[0].(*ast.IfStmt)
+		if !ok {
+			return fmt.Errorf("pickSignatureAlgorithm: first statement is not an if")
+		}
+		guardOK := false
+		if b, ok := first.Cond.(*ast.BinaryExpr); ok && b.Op.String() == "||" {
+			l, lok := b.X.(*ast.BinaryExpr)
+			r, rok := b.Y.(*ast.BinaryExpr)
+			if lok && rok && l.Op.String() == "<" && isIdent(l.X, "tlsVersion") && isIdent(l.Y, "VersionTLS12") && r.Op.String() == "==" {
+				if call, ok := r.X.(*ast.CallExpr); ok && isIdent(call.Fun, "len") && len(call.Args) == 1 && isIdent(call.Args[0], "peerSigAlgs") {
+					if z, err := p.Eval(r.Y); err == nil && z.Sign() == 0 {
+						guardOK = true
+					}
+				}
+			}
+		}
+		if !guardOK {
+			return fmt.Errorf("pickSignatureAlgorithm: the guard of the fixed branch is not \"tlsVersion < VersionTLS12 || len(peerSigAlgs) == 0\"")
+		}
+		var fixed, compat [][]*big.Int
+		var ferr error
+		typeSwitchRows := func(body *ast.BlockStmt, onCase func(kind int64, cl *ast.CaseClause)) {
+			found := false
+			ast.Inspect(body, func(n ast.Node) bool {
+				ts, ok := n.(*ast.TypeSwitchStmt)
+				if !ok || found {
+					return true
+				}
+				found = true
+				for _, cc := range ts.Body.List {
+					cl := cc.(*ast.CaseClause)
+					for _, te := range cl.List {
+						if k, ok := kindOf(te); ok {
+							onCase(k, cl)
+						} else {
+							ferr = fmt.Errorf("pickSignatureAlgorithm: unknown key type in a type switch")
+						}
+					}
+				}
+				return false
+			})
+			if !found {
+				ferr = fmt.Errorf("pickSignatureAlgorithm: type switch not found")
+			}
+		}
+		typeSwitchRows(first.Body, func(kind int64, cl *ast.CaseClause) {
+			ast.Inspect(cl, func(n ast.Node) bool {
+				if r, ok := n.(*ast.ReturnStmt); ok && len(r.Results) == 4 {
+					row := []*big.Int{big.NewInt(kind)}
+					for i := 0; i < 3; i++ {
+						x, err := retVal(r.Results[i])
+						if err != nil {
+							ferr = err
+							return false
+						}
+						row = append(row, x)
+					}
+					fixed = append(fixed, row)
+				}
+				return true
+			})
+		})
+		// the loop: for _, sigAlg := range peerSigAlgs { ... switch pubkey.(type) { case T: if sigType == A || sigType == B { return } } }
+		var loop *ast.RangeStmt
+		for _, st := range pick.Body.List {
+			if r, ok := st.(*ast.RangeStmt); ok {
+				loop = r
+			}
+		}
+		if loop == nil || !isIdent(loop.X, "peerSigAlgs") {
+			return fmt.Errorf("pickSignatureAlgorithm: the loop over peerSigAlgs was not found")
+		}
+		typeSwitchRows(loop.Body, func(kind int64, cl *ast.CaseClause) {
+			ast.Inspect(cl, func(n ast.Node) bool {
+				if b, ok := n.(*ast.BinaryExpr); ok && b.Op.String() == "==" && isIdent(b.X, "sigType") {
+					if x, err := p.Eval(b.Y); err == nil {
+						compat = append(compat, []*big.Int{big.NewInt(kind), x})
+					} else {
+						ferr = err
+					}
+				}
+				return true
+			})
+		})
+		if ferr != nil {
+			return ferr
+		}
+		v.NListList("gen_pick_fixed", fixed)
+		v.NListList("gen_pick_loop_compat", compat)
+
+		// verifyHandshakeSignature: switch sigType { case X: pubKey, ok := pubkey.(*T) ... }
+		vf, ok := p.Funcs["verifyHandshakeSignature"]
+		if !ok {
+			return fmt.Errorf("verifyHandshakeSignature not found")
+		}
+		var vrows [][]*big.Int
+		ast.Inspect(vf, func(n ast.Node) bool {
+			sw, ok := n.(*ast.SwitchStmt)
+			if !ok || !isIdent(sw.Tag, "sigType") {
+				return true
+			}
+			for _, cc := range sw.Body.List {
+				cl := cc.(*ast.CaseClause)
+				if cl.List == nil {
+					continue
+				}
+				kind := int64(-1)
+				ast.Inspect(cl, func(m ast.Node) bool {
+					if ta, ok := m.(*ast.TypeAssertExpr); ok && isIdent(ta.X, "pubkey") && kind < 0 {
+						if k, ok := kindOf(ta.Type); ok {
+							kind = k
+						}
+					}
+					return true
+				})
+				if kind < 0 {
+					ferr = fmt.Errorf("verifyHandshakeSignature: a case without a key type assertion")
+					return false
+				}
+				for _, ce := range cl.List {
+					x, err := p.Eval(ce)
+					if err != nil {
+						ferr = err
+						return false
+					}
+					vrows = append(vrows, []*big.Int{x, big.NewInt(kind)})
+				}
+			}
+			return false
+		})
+		if ferr != nil {
+			return ferr
+		}
+		if len(vrows) == 0 {
+			return fmt.Errorf("verifyHandshakeSignature: switch sigType not found")
+		}
+		v.NListList("gen_verify_key_for_sigtype", vrows)
+		return v.Write(c, "HSSigTables.v")
+	})
+}
